@@ -1,0 +1,33 @@
+//go:build verif
+
+// Contracts for the govc verifier (see /verif/DESIGN.md). Comment-only file: with the
+// "verif" build tag off it is not compiled; with it on it contains only the package clause.
+
+package task
+
+// semHeld: number of background-semaphore units this goroutine holds (assumed semaphore contracts).
+//@ ghost semHeld int
+//@ func golang.org/x/sync/semaphore.(*Weighted).Acquire
+//@   trusted
+//@   modifies semHeld
+//@   ensures semHeld == old(semHeld) + n
+//@ func golang.org/x/sync/semaphore.(*Weighted).Release
+//@   trusted
+//@   modifies semHeld
+//@   ensures semHeld == old(semHeld) - n
+
+// The notify channel and the prioritized-task counter are read for the start decision in one critical
+// section (the counter is otherwise accessed with sync/atomic, which is exempt from the lock discipline).
+//@ type BackgroundTaskManager
+//@   guards prioritizedTaskStartNotifyMu: prioritizedTaskStartNotify, prioritizedTasks
+//@   invariant[C13] prioritizedTaskStartNotifyMu: self.prioritizedTaskStartNotify != nil && !closed(self.prioritizedTaskStartNotify)
+
+//@ func (ts *BackgroundTaskManager) DoPrioritizedTask
+//@   props C13
+//@ func (ts *BackgroundTaskManager) InvokeBackgroundTask$1
+//@   props C13
+//@   requires ts != nil && ts.backgroundSem != nil && do != nil
+//@   ensures[C13] semHeld == old(semHeld)
+//@   ensures[C13] !running(done)
+//@   ensures[C13] gocount() <= 1 && (locked(ts.prioritizedTasks) > 0 ==> gocount() == 0)
+//@   ensures[C13] gocount() == 1 ==> ch == locked(ts.prioritizedTaskStartNotify)
